@@ -336,3 +336,23 @@ def mv_from(alg, keys, values):
     """Build a multivector storing exactly `keys` in exactly this order."""
     from kingdon.multivector import MultiVector
     return MultiVector.fromkeysvalues(alg, tuple(keys), list(values))
+
+
+def make_or_skip(ctx, cfg, **extra):
+    """make_algebra under the watchdog; a configuration that cannot be constructed is recorded (and, for the properties that
+    quantify over every admissible configuration - C01 and C14 - reported as a violation) and skipped instead of crashing the shard."""
+    def build():
+        from .iso import Iso
+        alg = make_algebra(cfg, **extra)
+        Iso(alg)        # the algebra's own description (signature, start_index, blade names) must be consistent
+        return alg
+    st, alg = ctx.guarded(120, build)
+    if st == 'ok':
+        return alg
+    ctx.count('algebra_construction_failed')
+    if st == 'exc':
+        ctx.note_raised(alg, 'construct')
+        if ctx.prop in ('C01', 'C14'):
+            ctx.violation('an admissible algebra configuration cannot be constructed', ['construct', cfg_str(cfg)], config=cfg,
+                          error=f'{type(alg).__name__}: {str(alg)[:200]}')
+    return None
